@@ -8,7 +8,6 @@ import (
 	"strconv"
 	"strings"
 	"sync"
-	"time"
 
 	"verif/harness/model"
 )
@@ -70,7 +69,7 @@ func checkC10(ctx *Ctx) {
 		"distinct_nontrivial = distinct (image kind, failpoint, number of earlier snapshots, restored generation) tuples")
 	ctx.Assume("process death = directory image at the failpoint", "virtual clock names the snapshot directories",
 		"the fsync-before-rename order is observed separately as a system-call trace (strace lane)")
-	if ctx.Fork(8, "", 15*time.Minute) {
+	if ctx.Fork(8, "", ctx.Watchdog()) {
 		return
 	}
 	quietLogs()
